@@ -34,6 +34,10 @@ CHECKS = {
             "Exploration: parse->unparse byte identity; texts printed by deep, converted and derived (operator application, substitution, differentiation) expressions are re-parsed as flat and deep expressions and compared with the reference tree (mod AC); serde_json round trips. f64 prints with exponent/non-finite literals are counted and skipped (the property's proviso).",
             "Trusted: reference tree; a derivative's printed text can only bring back variables that still occur (C09 keeps the full list), so derivatives are compared binding by name.",
             "DESIGN.md 3/C12"),
+    "C13": ("runtime monitor: reference lexer + recursive-descent reference parser as oracle over targeted lexical families, exhaustive literal spellings",
+            "Exploration with exhaustive sub-spaces (all strings of length <=5 over [0-9.]; all sign chains of length <=4): every operator/constant name of 7 tables (default float names, value-table names, unary/constant/binary and symbolic prefix chains, Greek, digits in names) is extended / truncated / followed by every kind of continuation, and the real parsers' variable lists and terms are compared with the documented reading computed by an independent reference lexer and parser.",
+            "Trusted: the reference lexer/parser (model.rs, ~200 lines, no regexes); texts the model rejects are not judged except invalid number spellings.",
+            "DESIGN.md 3/C13"),
     "C14": ("runtime monitor: reduction-trace hook (H1) checked online against a shadow consumed-set, term-algebra result oracle, tracker driven directly against Vec<bool>",
             "Exploration with an exhaustive sub-space: every application order of chains with up to 8 (quick) / 9 (thorough) operands, structured and random orders at lengths straddling 32/64/128/192/256/500/1000 operands; each reduction step of eval_binary is observed through hook H1 and checked (nearest live operands, nothing consumed twice, order imposed by priorities), the final term is compared with the model, and both NumberTracker implementations are driven directly against a Vec<bool> shadow.",
             "Trusted: the 30-line chain-reduction model; hook H1 records (op, left, right, n) faithfully.",
